@@ -136,6 +136,7 @@ def implements_interval_interface(x):
 M.contract('contracts.C13_filter:implements_interval_interface',
            params=dict(x=CONCRETE_INTERVAL),
            ensures={'every concrete interval class behaves as the interface IntervalI assumes': lambda result: result},
+           cover=False,     # the `return False` exits of the harness are unreachable exactly when the claim holds
            raises_only=())
 
 M.contract(P_INTERVALS + ':point', params=dict(x=Int), ghosts=dict(n=Int), returns=ANY_INTERVAL,
